@@ -114,7 +114,7 @@ def is_found(oc):
     return False
 
 
-HARD_PREFIXES = ("enoent:", "eisdir:", "eacces:", "emfile:", "enfile:", "eperm:", "eloop:", "eio_open:", "enomem_open:", "eio_read:", "bad_utf8:", "exists_false:",
+HARD_PREFIXES = ("enoent:", "eisdir:", "dangling_symlink:", "eacces:", "emfile:", "enfile:", "eperm:", "eloop:", "eio_open:", "enomem_open:", "eio_read:", "bad_utf8:", "exists_false:",
                  "prog_absent:", "prog_eacces:", "fork_enomem:", "fork_eagain:", "rc1_", "rc2_", "rc127", "rcN_", "killed_", "not_elf:", "empty_file:",
                  "truncated_elf:", "D:malformed", "D:empty_doc", "D:scalar_doc", "D:list_doc", "D:macro_file_")
 
@@ -161,6 +161,7 @@ def env_faults(rng, events, op, files, outcome, rule_rel="rule.yaml", input_rel=
                 out.append({"kind": kind, "target": p, "label": f"{kind}:{role}"})
             out.append({"kind": "remove", "target": p, "label": f"enoent:{role}"})
             out.append({"kind": "mkdir_in_place", "target": p, "label": f"eisdir:{role}"})
+            out.append({"kind": "dangling_symlink", "target": p, "label": f"dangling_symlink:{role}"})
             data = util.dec_content(files[p])
             cut = rng.randrange(0, len(data) + 1)
             out.append({"kind": "replace", "target": p, "content": {"b64": _b64(data[:cut] + BAD_UTF8 + data[cut:])}, "label": f"bad_utf8:{role}"})
@@ -192,6 +193,7 @@ def env_faults(rng, events, op, files, outcome, rule_rel="rule.yaml", input_rel=
                 data = util.dec_content(files[inp])
                 out.append({"kind": "remove", "target": inp, "label": "enoent:binary"})
                 out.append({"kind": "mkdir_in_place", "target": inp, "label": "eisdir:binary"})
+                out.append({"kind": "dangling_symlink", "target": inp, "label": "dangling_symlink:binary"})
                 out.append({"kind": "replace", "target": inp, "content": "this is not an object file\n", "label": "not_elf:binary"})
                 out.append({"kind": "replace", "target": inp, "content": "", "label": "empty_file:binary"})
                 out.append({"kind": "replace", "target": inp, "content": {"b64": _b64(data[:rng.randrange(8, 64)])}, "label": "truncated_elf:binary"})
